@@ -357,8 +357,10 @@ def shiftnd(states, indices, shift, *, nmax=None, prune=True, tol=1e-8):
 
     if nmax is not None:
         # crop states if above a certain index
+        # (spatial columns only: the 4th column is accumulated time)
+        nm = xp.asarray(nmax)[..., :3] if xp.ndim(nmax) else nmax
         keep = xp.any(
-            xp.all(xp.abs(k2) <= nmax, axis=-1), axis=tuple(range(k2.ndim - 2))
+            xp.all(xp.abs(k2[..., :3]) <= nm, axis=-1), axis=tuple(range(k2.ndim - 2))
         )
         if not xp.all(keep):
             k2 = k2[..., keep, :]
